@@ -66,6 +66,22 @@ func roundTripPrograms(tier string, visit func(src, from string)) {
 		visit(gen.Source(gen.VCL(gen.N("TableDeclaration", "Name", gen.Ident("t"), "ValueType", nil, "Properties", []*gen.Node{
 			gen.N("TableProperty", "Key", gen.Str("k"), "Value", gen.LongStr(bigString(n), ""), "HasComma", true)}))), fmt.Sprintf("table-string-len-%d", n))
 	}
+	// medium-sized subroutines: the encoding crosses the decoder's 4096-byte read buffer once or twice, and a
+	// first statement padded by 0..63 bytes shifts every later frame header through every alignment to that boundary
+	pads := 64
+	for _, n := range []int{130, 260} {
+		if n == 260 && tier != "thorough" {
+			pads = 16
+		}
+		for p := 0; p < pads; p++ {
+			var body []*gen.Node
+			body = append(body, gen.Set("req.http.Pad", "=", gen.Str(strings.Repeat("p", p))))
+			for i := 0; i < n; i++ {
+				body = append(body, gen.Set("req.http.H", "=", gen.Str(fmt.Sprintf("v%d", i%10))))
+			}
+			visit(gen.Source(gen.VCL(gen.Sub("mid", body...))), fmt.Sprintf("mid-subroutine-%d-pad-%d", n, p))
+		}
+	}
 	// a subroutine with many statements: nested frame larger than 64 KiB
 	var many []*gen.Node
 	for i := 0; i < 3000; i++ {
@@ -297,7 +313,13 @@ func run(c Case) engine.Result {
 			return
 		}
 		if derr != nil {
-			add(engine.Finding{Class: "decode-own-error|" + kindName + "|" + errShape(derr), What: fmt.Sprintf("the encoder's own output for a %s does not decode: %v", kindName, derr), Detail: c.Src})
+			// an encoding of 64 KiB or more can hold a frame whose 16-bit length wraps (recorded root cause);
+			// a smaller one cannot, so it gets its own class
+			q := ""
+			if len(b) < 65536 {
+				q = "|under-64KiB"
+			}
+			add(engine.Finding{Class: "decode-own-error|" + kindName + "|" + errShape(derr) + q, What: fmt.Sprintf("the encoder's own output for a %s (%d bytes) does not decode: %v", kindName, len(b), derr), Detail: c.Src})
 			return
 		}
 		want := gen.DumpList(in, gen.PresentationFlags)
